@@ -6,8 +6,9 @@
    Two switches select the code the statements are about:
      nc = true  : write_string refuses a str containing NUL (C06_nul_in_string.diff);
      nc = false : the snapshot's write_string;
-     fx = true  : repaired _calc_msg_dgram_size / _clump_bundle (C06_size_prediction.diff,
-                  C06_clump_bundle.diff);  fx = false : the snapshot's.
+     fx = true  : repaired _calc_msg_dgram_size / _calc_bndl_dgram_size / _clump_bundle
+                  (C06_size_prediction.diff, C06_clump_bundle.diff, C06_size_accepts.diff);
+     fx = false : the original snapshot's.
    The positive theorems hold for nc = true, fx = true (and, where stated, for nc = false
    under an explicit NUL-freeness guard); the `_snapshot_refuted` theorems exhibit the
    inputs on which the snapshot's computations fail (DESIGN.md F2, F16).
@@ -17,8 +18,9 @@ From Coq Require Import ZArith QArith List Bool.
 Import ListNotations.
 Require Import SC3.model.Osc SC3.model.OscSize.
 Require Import SC3.proofs.C06_base SC3.proofs.C06_size SC3.proofs.C06_clump
-               SC3.proofs.C06_readers SC3.proofs.C06_roundtrip SC3.proofs.C06_gen.
-Require Import SC3.lib.PyNum SC3.gen.Gen_size.
+               SC3.proofs.C06_readers SC3.proofs.C06_roundtrip SC3.proofs.C06_gen
+               SC3.proofs.C06_osc10 SC3.proofs.C06_inject.
+Require Import SC3.lib.PyNum SC3.gen.Gen_size SC3.model.Osc10.
 Open Scope Z_scope.
 
 (* ---- alignment ---------------------------------------------------------- *)
@@ -143,6 +145,53 @@ Theorem packet_roundtrip : forall nc a d fuel,
   exists p, parse_any fuel d = Ok p /\ expect nc a p.
 Proof. intros nc a d fuel Hwf Hg Hb Hf. exact (rt_all nc a Hwf Hg d Hb fuel Hf). Qed.
 
+(* ---- conformance to an independent OSC 1.0 reader --------------------------- *)
+(* model/Osc10.v is a strict decoder written from the OSC 1.0 specification; it shares no
+   code with the library's parser (it consumes the bytes front to back, checks that padding
+   is NUL, that sizes are multiples of 4 and that nothing is left over).  Every message or
+   bundle the builder accepts, at any nesting depth, is read by it as the expected packet --
+   the same packet the library's own parser returns ([o_of_packet] only renames the
+   constructors into the decoder's vocabulary). *)
+Theorem osc10_agrees : forall nc a d,
+  floats4 a = true -> pkt_guard nc a = true -> build_pkt nc a = Ok d ->
+  exists p, expect nc a p /\
+            parse_any (S (length d)) d = Ok p /\
+            Osc10.decode d = Some (o_of_packet p).
+Proof.
+  intros nc a d Hwf Hg Hb.
+  destruct (conforms_all nc a Hwf Hg d Hb (S (length d)) (Nat.lt_succ_diag_r _)) as (p1 & E1 & D1).
+  destruct (rt_all nc a Hwf Hg d Hb (S (length d)) (Nat.lt_succ_diag_r _)) as (p2 & P2 & E2).
+  pose proof (expect_functional nc a p1 p2 E1 E2) as <-.
+  exists p1. auto.
+Qed.
+
+(* ---- nothing is silently altered: the bytes determine the coerced arguments ---- *)
+(* Two accepted messages with the same bytes have the same address and the same coerced
+   typed arguments (the coercions themselves identify None/False/[]/0, True/1 and a
+   message-shaped list with the blob of its encoding: that is the documented behaviour). *)
+Theorem decode_unique : forall nc addr1 args1 addr2 args2 d,
+  forallb floats4 args1 = true -> forallb floats4 args2 = true ->
+  (nc = true \/ (has_nul addr1 = false /\ forall s, In (AStr s) args1 -> has_nul s = false)) ->
+  (nc = true \/ (has_nul addr2 = false /\ forall s, In (AStr s) args2 -> has_nul s = false)) ->
+  build_pkt nc (AList (AStr addr1 :: args1)) = Ok d ->
+  build_pkt nc (AList (AStr addr2 :: args2)) = Ok d ->
+  addr1 = addr2 /\
+  exists targs, coerce_args nc args1 = Ok targs /\ coerce_args nc args2 = Ok targs.
+Proof. exact msg_injective_main. Qed.
+
+(* two accepted trees (messages or bundles, any depth) with the same bytes denote the same
+   packet, and a tree denotes at most one packet *)
+Theorem packet_unique : forall nc a1 a2 d,
+  floats4 a1 = true -> floats4 a2 = true -> pkt_guard nc a1 = true -> pkt_guard nc a2 = true ->
+  build_pkt nc a1 = Ok d -> build_pkt nc a2 = Ok d ->
+  exists p, expect nc a1 p /\ expect nc a2 p /\ forall q, expect nc a1 q \/ expect nc a2 q -> q = p.
+Proof.
+  intros nc a1 a2 d W1 W2 G1 G2 B1 B2.
+  destruct (packet_unique_main nc a1 a2 d W1 W2 G1 G2 B1 B2) as (p & E1 & E2).
+  exists p. split; [exact E1 |]. split; [exact E2 |].
+  intros q [Hq | Hq]; [exact (expect_functional nc a1 q p Hq E1) | exact (expect_functional nc a2 q p Hq E2)].
+Qed.
+
 (* ---- size prediction ------------------------------------------------------ *)
 (* tie: the strpad4 of the size model is the REGENERATED NetAddr._strpad4 on ints *)
 Theorem strpad4_regenerated : forall n : Z, py__strpad4 (I n) = I (strpad4 n).
@@ -160,6 +209,30 @@ Theorem send_path_choice : forall nc m d n,
 Proof.
   intros nc m d n Hwf Hb Hc Hu. pose proof (size_upper_bound nc m d n Hwf Hb Hc).
   unfold use_d_recv in Hu. apply Z.leb_le in Hu. Lia.lia.
+Qed.
+
+(* the repaired prediction is defined for everything the builder accepts (a nested bundle
+   whose time is None, a non-ASCII address): send_clumped_bundles / sync can always decide *)
+Theorem size_defined : forall nc a d,
+  build_pkt nc a = Ok d -> exists n, calc_pkt true a = Ok n.
+Proof. intros nc a d Hb. exact (predicted_all nc a d Hb). Qed.
+
+Theorem clump_defined : forall nc lat tag es d size,
+  build_pkt nc (AList (ATime lat tag :: es)) = Ok d -> exists cs, clump_bundle true size es = Ok cs.
+Proof.
+  intros nc lat tag es d size Hb. rewrite build_pkt_bundle in Hb. apply bind_ok in Hb as (ds & Hds & _).
+  exact (C06_size.clump_defined nc lat es ds size Hds).
+Qed.
+
+(* on the snapshot a bundle that is accepted for sending has no prediction *)
+Theorem size_defined_snapshot_refuted : exists a d,
+  a = AList [ATime None 1; AList [ATime None 1; AList [AStr [47; 121]]]] /\
+  build_pkt false a = Ok d /\ calc_pkt false a = Err EValue.
+Proof.
+  exists (AList [ATime None 1; AList [ATime None 1; AList [AStr [47; 121]]]]).
+  exists [35; 98; 117; 110; 100; 108; 101; 0; 0; 0; 0; 0; 0; 0; 0; 1; 0; 0; 0; 28;
+          35; 98; 117; 110; 100; 108; 101; 0; 0; 0; 0; 0; 0; 0; 0; 1; 0; 0; 0; 8; 47; 121; 0; 0; 44; 0; 0; 0].
+  vm_compute. repeat split.
 Qed.
 
 (* F2 on the snapshot: _calc_msg_dgram_size(['/x', b'a']) = 13 < 16 *)
@@ -275,6 +348,12 @@ Example refusal_example :
   build_pkt true (AList [AStr [47; 120]; AStr [93]]) = Err EParse /\
   build_pkt true (AList [AStr [47; 120]; AOther]) = Err EValue.
 Proof. vm_compute. repeat split. Qed.
+Example osc10_example :
+  Osc10.decode [47; 120; 0; 0; 44; 105; 91; 102; 93; 0; 0; 0; 0; 0; 0; 1; 63; 192; 0; 0]
+  = Some (Osc10.OMessage [47; 120] [Osc10.OInt 1; Osc10.OArr [Osc10.OFloat [63; 192; 0; 0]]]) /\
+  Osc10.decode [47; 120; 0; 0; 44; 115; 0; 0; 97; 0; 98; 0] = None /\      (* padding not NUL *)
+  Osc10.decode [47; 120; 0; 0; 44; 105; 0; 0; 0; 0; 0; 1; 0; 0; 0; 0] = None.   (* bytes left over *)
+Proof. vm_compute. repeat split. Qed.
 Example clump_example :
   clump_canon (clump_bundle true 64 (repeat (AList [AStr [47; 120]; AInt 1]) 5)) = (0, [2; 2; 1]) /\
   clump_canon (clump_bundle false 64 (repeat (AList [AStr [47; 120]; AInt 1]) 5)) = (0, [3; 2]).
@@ -286,3 +365,6 @@ Print Assumptions bundle_roundtrip.
 Print Assumptions size_upper_bound.
 Print Assumptions clump_within_limit.
 Print Assumptions clump_sync_within_udp_limit.
+Print Assumptions osc10_agrees.
+Print Assumptions decode_unique.
+Print Assumptions size_defined.
